@@ -177,7 +177,8 @@ static void stat_mid(cbuf_t cb)
     /* the two getters that have no column of their own must agree with the others */
     int e = CALL1(cbuf_free(cb)), f = CALL1(cbuf_is_empty(cb)), v = -9;
     int g = CALL1(cbuf_opt_get(cb, CBUF_OPT_OVERWRITE, &v));
-    printf(" | %d %d %d %d", a, b, c, d);
+    int lr = CALL1(cbuf_lines_reused(cb));
+    printf(" | %d %d %d %d %d", a, b, c, d, lr);
     if (e != a - b) printf(" !free=%d!", e);
     if (f != (b == 0)) printf(" !is_empty=%d!", f);
     if (g != 0 || (v != CBUF_NO_DROP && v != CBUF_WRAP_ONCE && v != CBUF_WRAP_MANY)) printf(" !opt_get=%d,%d!", g, v);
@@ -342,6 +343,27 @@ int main(int argc, char **argv)
                 printf("~");
             stat_tail(cb);
             free(b);
+        } else if (!strcmp(op, "yline")) {
+            int len = atoi(a1), lines = atoi(a2), n, m;
+            /* exact-size allocation (ASan sees a byte written at index >= len); the fill byte lets
+             * the terminating NUL be found without knowing whether a newline was supplied: it is
+             * the last byte cbuf_replay_line wrote, everything behind it is still the fill */
+            unsigned char *b = malloc(len > 0 ? len : 1);
+            memset(b, 0xA5, len > 0 ? len : 1);
+            n = CALL1(cbuf_replay_line(cb, (char *) b, len, lines));
+            printf("%d ", n);
+            if (n > 0 && len > 0) {
+                for (m = len - 1; m > 0 && b[m] == 0xA5; m--)
+                    ;
+                if (b[m] != 0) printf("!noNUL!");
+                puthex(b, m);
+            } else
+                printf("~");
+            stat_tail(cb);
+            free(b);
+        } else if (!strcmp(op, "wrline")) {
+            int n = CALL1(cbuf_rewind_line(cb, atoi(a1), atoi(a2)));
+            printf("%d", n); stat_tail(cb);
         } else if (!strcmp(op, "dline")) {
             int n = CALL1(cbuf_drop_line(cb, atoi(a1), atoi(a2)));
             printf("%d", n); stat_tail(cb);
